@@ -108,7 +108,7 @@ RuleListAgrees == AllHold(kind, hist)
 StepsTotal == \A c \in Cmds(kind, st, Wide) : Steps(kind, st, c) # {}
 
 \* ---- necessity: the deviations of the code as it is are outside the rules (used with expect_ok = FALSE) ----
-NextDev == /\ Len(hist) < DepthOf(kind)
+NextDev == /\ Len(hist) < 3 + Scale
            /\ \E c \in Cmds(kind, st, Wide) : \E r \in Steps(kind, st, c) \cup DevSteps(kind, st, c) :
                  /\ st' = r.st
                  /\ hist' = Append(hist, [cmd |-> c, out |-> r.out])
